@@ -724,6 +724,8 @@ def run(ctx):
 
 
 VARIANTS = [
+    B("c15-shared-point-skipped-by-identity", PATH, "    first = True\n    for phasepoint in path_forw.phasepoints:\n        if first and overlap:\n            first = False\n            continue\n", "    shared = None\n    if overlap and path_forw.length > 0:\n        shared = path_forw.phasepoints[0]\n    for phasepoint in path_forw.phasepoints:\n        if phasepoint is shared:\n            continue\n", "R-15.3", why="seeded C15_o: every later occurrence of that frame object is dropped too"),
+    K("c15-keep-shared-point-skipped-by-position", PATH, "    first = True\n    for phasepoint in path_forw.phasepoints:\n        if first and overlap:\n            first = False\n            continue\n", "    for position, phasepoint in enumerate(path_forw.phasepoints):\n        if position == 0 and overlap:\n            continue\n", why="first iteration by index"),
     B("c15-copy-filled-under-the-default-limit", PATH, "        new_path = self.empty_path(maxlen=self.maxlen)\n        for phasepoint in self.phasepoints:", "        new_path = self.empty_path()\n        for phasepoint in self.phasepoints:", "R-15.8", control=True, why="seeded C15_n"),
     B("c15-reverse-filled-under-the-default-limit", PATH, "        new_path = self.empty_path(maxlen=self.maxlen)\n        new_path.weights = self.weights", "        new_path = self.empty_path()\n        new_path.weights = self.weights", "R-15.8", why="sibling of C15_n in Path.reverse"),
     K("c15-keep-copy-limit-stored-before-the-loop", PATH, "        new_path = self.empty_path(maxlen=self.maxlen)\n        for phasepoint in self.phasepoints:", "        new_path = self.empty_path()\n        new_path.maxlen = self.maxlen\n        for phasepoint in self.phasepoints:"),
